@@ -17,7 +17,7 @@ func c06Scenario(r *vx.Rand) {
 	if r.Chance(25) {
 		stores = 3
 	}
-	w := hub.NewWorld(rec, hub.Options{Seed: r.U64(), Splits: pick(r, layoutsOf(1+r.Intn(3))), Stores: stores})
+	w := hub.NewWorld(rec, hub.Options{Full: lean, Seed: r.U64(), Splits: pick(r, layoutsOf(1+r.Intn(3))), Stores: stores})
 	defer w.Close()
 	for _, k := range keys {
 		w.TrackKey(k)
